@@ -7,6 +7,9 @@ CLAIMED = {
  "C12": ("Bounded symbolic execution (go/ssa -> SMT, z3) of binpatch Add/Dump/Load/Apply/applyRewrite on symbolic patch sets and file bytes: for every input inside the harness bounds the applied result equals the reference splice, Dump/Load round-trips, and malformed blobs are rejected without header-sized allocation. Counterexamples are replayed natively before being reported.",
          "Trusted: the SSA->SMT executor and its intrinsics (encoding/binary layout, in-memory os.File model, sort interpreted), z3 4.8.12. Bounds: <=3 patches, blobs <=2 bytes, files <=6 bytes, Load on <=40 arbitrary bytes.",
          "DESIGN.md §4 C12"),
+ "C13": ("Bounded symbolic execution of the real output strategies (atomicfile.WriteFile / WriteInPlace+Commit, binpatch rewrite) over an in-memory model of the os package in which the crash index (process killed before FS step k) and per-call OS failures are symbolic choices: at every crash point and after every handled error the destination holds exactly OLD or exactly NEW, never disappears if it existed, the input is unchanged, and no *.tmp sibling remains after a return.",
+         "Trusted: the engine's os model (rename atomic and replacing, unlink/close semantics, a failing unlink is not injected), z3. Bounds: payload <=3 bytes, <=2 patches, <=12 FS steps. Durability (fsync/power loss) is outside: the property is about process kill.",
+         "DESIGN.md §4 C13"),
 }
 
 NOT_APPLICABLE = {
